@@ -4,6 +4,7 @@ import ClaripyProofs.Lemmas.FP.FoldF
 import ClaripyProofs.Lemmas.FP.IntConv
 import ClaripyProofs.Lemmas.FP.MulF
 import ClaripyProofs.Lemmas.FP.AddF
+import ClaripyProofs.Lemmas.FP.SubDR
 /-!
 # C02 — IEEE-754 meaning of floating-point folding in every rounding mode
 
@@ -221,6 +222,26 @@ theorem fold_float_rne_partial (hadd : DoubleRoundingInnocuous add) : fold_float
   constructor
   · have := hadd a b; unfold fpAdd pyAdd lift lower; simpa using this
   · exact fold_mul_float_rne a b
+
+/-- DOUBLE ROUNDING IS INNOCUOUS FOR ADDITION (Figueroa): the binary64 sum of two binary32 values, rounded again to binary32,
+is the correctly rounded binary32 sum — for every pair of bit patterns (NaN, ±inf, ±0, exact zero sums, subnormals, overflow).
+Proof (`Lemmas/FP/DoubleRound.lean`, `AddDR.lean`): the second rounding can only go wrong if the first lands on the midpoint of two
+adjacent binary32 values without the exact sum being that midpoint; a sum that is not itself a binary64 value has operands whose
+quanta are ≥ 30 binary places apart, so it lies within 2^-6 binary32 ulp of the larger operand and the (monotone) binary64
+rounding cannot carry it to a midpoint. -/
+theorem double_rounding_innocuous_add : DoubleRoundingInnocuous add := narrow_add_widen
+
+/-- … and for subtraction (`a - b = a + (-b)` in both formats; widening commutes with negation) -/
+theorem double_rounding_innocuous_sub : DoubleRoundingInnocuous sub := narrow_sub_widen
+
+/-- FLOAT ADDITION, no hypothesis, every pair of operands: fold = specification under RNE -/
+theorem fold_add_float_rne (a b : Nat) : fpAdd F .RNE a b = add F .RNE a b := fpAdd_F .RNE a b
+
+/-- FLOAT SUBTRACTION, no hypothesis, every pair of operands -/
+theorem fold_sub_float_rne (a b : Nat) : fpSub F .RNE a b = sub F .RNE a b := fpSub_F .RNE a b
+
+/-- the full FLOAT statement for addition and multiplication, unconditionally -/
+theorem fold_float_rne : fold_float_rne_full := fold_float_rne_partial double_rounding_innocuous_add
 
 /-! ## the statement is false outside RNE (open findings) — witnesses, replayed on the real code -/
 
